@@ -532,11 +532,15 @@ def branch_of(ifstmt, node):
 
 
 def exclusive(cfg, t, edge):
-    """nodes reachable (without exception edges) from test node t only by leaving it on ``edge``"""
+    """nodes reachable (without exception edges) from test node t only by leaving it on ``edge``;
+    for a test inside a loop: within the same iteration (paths through the innermost loop header
+    are not followed, otherwise both edges reach everything)"""
     nonexc = lambda lab: lab != 'exc'
     other = 'false' if edge == 'true' else 'true'
-    a = cfg.reachable(t, labels=nonexc, start_labels=lambda lab: lab == edge)
-    b = cfg.reachable(t, labels=nonexc, start_labels=lambda lab: lab == other)
+    hdr = set(getattr(t, 'loop_stack', ())[-1:])
+    hdr.discard(t)
+    a = cfg.reachable(t, avoid=hdr, labels=nonexc, start_labels=lambda lab: lab == edge)
+    b = cfg.reachable(t, avoid=hdr, labels=nonexc, start_labels=lambda lab: lab == other)
     return [n for n in cfg.nodes if n in a and n not in b]
 
 
@@ -712,6 +716,15 @@ def decision_function(unit):
             return value(e.body if truth(e.test, asg) else e.orelse, asg, env)
         if isinstance(e, ast.Name) and e.id in env:
             return env[e.id]
+        if any(isinstance(n, ast.Name) and n.id in env for n in ast.walk(e)):
+            import copy
+
+            class Sub(ast.NodeTransformer):
+                def visit_Name(self, node):
+                    if isinstance(node.ctx, ast.Load) and node.id in env:
+                        return ast.parse(env[node.id], mode='eval').body
+                    return node
+            return norm(Sub().visit(copy.deepcopy(e)))
         return norm(e)
 
     def run(stmts, asg, env):
@@ -738,6 +751,59 @@ def decision_function(unit):
         r = run(unit.body() if callable(getattr(unit, 'body', None)) else unit.node.body, asg, {})
         return r if r is not None else ('return', 'None')
     return atoms, decide
+
+
+def boolean_function(unit):
+    """For a predicate written with ``if`` tests, boolean operators and returns (see
+    decision_function): (atoms, f) where atoms are the atomic conditions of the tests *and* of
+    the returned expressions and f(assignment) is the truth value returned.  Raises Undecidable
+    when the function is not of that shape."""
+    import itertools
+    from .program import norm
+    from .normal import _positive
+    atoms, decide = decision_function(unit)
+    all_atoms = list(atoms)
+
+    def atoms_of(e):
+        if isinstance(e, ast.BoolOp):
+            for v in e.values:
+                atoms_of(v)
+            return
+        if isinstance(e, ast.Constant) and isinstance(e.value, bool):
+            return
+        pos, neg = _positive(e)
+        if neg or isinstance(pos, ast.BoolOp):
+            atoms_of(pos)
+            return
+        k = norm(pos)
+        if k not in all_atoms:
+            all_atoms.append(k)
+
+    def truth(e, asg):
+        if isinstance(e, ast.Constant) and isinstance(e.value, bool):
+            return e.value
+        if isinstance(e, ast.BoolOp):
+            vals = [truth(v, asg) for v in e.values]
+            return all(vals) if isinstance(e.op, ast.And) else any(vals)
+        pos, neg = _positive(e)
+        if neg:
+            return not truth(pos, asg)
+        if isinstance(pos, ast.BoolOp):
+            return truth(pos, asg)
+        return asg[norm(pos)]
+    parsed = {}
+    for vals in itertools.product((False, True), repeat=len(atoms)):
+        kind, text = decide(dict(zip(atoms, vals)))
+        if kind != 'return':
+            raise Undecidable('the predicate raises')
+        if text not in parsed:
+            parsed[text] = ast.parse(text, mode='eval').body
+            atoms_of(parsed[text])
+
+    def f(asg):
+        kind, text = decide({a: asg[a] for a in atoms})
+        return truth(parsed[text], asg)
+    return all_atoms, f
 
 
 def choice_values(cfg, at, name, cond_template, entry_only=False):
